@@ -56,3 +56,235 @@ PROPS["C14"] = {
         },
     ],
 }
+
+_IO_ASSUME = [
+    "common::now is a stub over a virtual clock",
+    "is_socket = true; is_blocking/set_blocking/set_non_blocking are a per-fd flag model that counts calls (fcntl not executed)",
+    "recv_time_limit/send_time_limit return a symbolic limit in {unlimited, 15 ms} (the real cache is decided under C19)",
+    "EventLoops::wait_read_event/wait_write_event are replaced by: the slice elapses, result Ok or Err (symbolic)",
+    "the raw libc function is a scripted kernel: <= 3 symbolic responses from {n bytes, EOF, EAGAIN, EINTR, ECONNRESET}, then ECONNRESET",
+]
+
+PROPS["C16"] = {
+    "functions": ["impl_nio_read_buf! as instantiated in syscall::read / recv / recvfrom (via Facade->Nio->Raw)",
+                  "impl_nio_write_buf! as instantiated in syscall::write / send / sendto",
+                  "impl_nio_read_iovec! (readv), impl_nio_write_iovec! (writev), NioRecvmsgSyscall, NioSendmsgSyscall",
+                  "syscall::unix::{reset_errno,set_errno}"],
+    "bounds": "<= 3 scripted kernel responses per call (then the peer resets), single buffers of 1..=4 bytes (0 in the "
+              "zero-length harnesses), <= 2 iovecs of 0..=2 bytes, symbolic blocking flag, time limit in {none, 15 ms}, "
+              "symbolic wait failure position; unwind 7.",
+    "outside": "non-socket descriptors (bypass), the io_uring layer, the facade's coroutine branch, pread/pwrite (ESPIPE on sockets), "
+               "longer scripts and larger buffers.",
+    "assumptions": _IO_ASSUME,
+    "groups": [
+        {
+            "mounts": [("c16_io.rs", "syscall/unix/mod.rs")],
+            "harnesses": ["c16_read", "c16_recv", "c16_recvfrom", "c16_write", "c16_send", "c16_sendto",
+                          "c16_zero_len_read", "c16_zero_len_recv", "c16_zero_len_write", "c16_zero_len_send"],
+            "timeout": 400, "jobs": 6,
+        },
+        {
+            "mounts": [("c16_io.rs", "syscall/unix/mod.rs")],
+            "harnesses": ["c16_readv", "c16_writev", "c16_recvmsg", "c16_sendmsg"],
+            "timeout": 900, "jobs": 4,
+        },
+    ],
+}
+
+PROPS["C18"] = {
+    "functions": ["impl_nio_read_buf!/impl_nio_write_buf! (read, recv, recvfrom, write, send, sendto): remember blocking flag, "
+                  "force O_NONBLOCK, restore on every exit path; would-block handling"],
+    "bounds": "as C16 (<= 3 scripted responses, buffers 0..=4 bytes, both blocking modes).",
+    "outside": "that the hook applies process-wide (dynamic linking), real fcntl, the coroutine branch.",
+    "assumptions": _IO_ASSUME,
+    "groups": [
+        {
+            "mounts": [("c16_io.rs", "syscall/unix/mod.rs")],
+            "harnesses": ["c18_mode_read", "c18_mode_recv", "c18_mode_recvfrom", "c18_mode_write", "c18_mode_send",
+                          "c18_mode_sendto", "c18_nonblocking_read", "c18_nonblocking_send"],
+            "timeout": 400,
+        },
+    ],
+}
+
+PROPS["C17"] = {
+    "functions": ["impl_nio_read_iovec! (readv)", "impl_nio_write_iovec! (writev)", "NioRecvmsgSyscall::recvmsg",
+                  "NioSendmsgSyscall::sendmsg (rebuild of the iovec array from index/offset, msg_iovlen selection)"],
+    "bounds": "2 caller iovecs of 0..=2 bytes each, <= 3 scripted kernel responses (then reset), unwind 7. The scripted kernel "
+              "reads exactly `count` elements of the array it is handed (an over-long count is an out-of-bounds read CBMC reports) "
+              "and compares them with the caller's unfilled ranges.",
+    "outside": "more / larger iovecs, preadv/pwritev (ESPIPE on sockets), ancillary data.",
+    "assumptions": _IO_ASSUME,
+    "groups": [
+        {
+            "mounts": [("c16_io.rs", "syscall/unix/mod.rs")],
+            "harnesses": ["c17_readv", "c17_writev", "c17_recvmsg", "c17_sendmsg"],
+            "timeout": 900, "jobs": 4,
+        },
+    ],
+}
+
+PROPS["C19"] = {
+    "functions": ["syscall::setsockopt (NioSetsockoptSyscall)", "syscall::unix::recv_time_limit", "syscall::unix::send_time_limit",
+                  "syscall::unix::get_time_limit", "syscall::close (NioCloseSyscall)"],
+    "bounds": "histories of 2, 3 and 4 operations from {set SO_RCVTIMEO, set SO_SNDTIMEO, query recv limit, query send limit, "
+              "close+reuse} over 2 descriptor numbers; timeval values symbolic with 0 <= sec < 2^20, 0 <= usec < 10^6; "
+              "dashmap model capacity 4; unwind 6.",
+    "outside": "more than 2 descriptors / longer histories; negative timeval fields (panic path of get_time_limit, see C28); "
+               "getsockopt failures; concurrent callers.",
+    "assumptions": [
+        "libc::getsockopt is replaced by a kernel-option model (per descriptor SO_RCVTIMEO/SO_SNDTIMEO values)",
+        "the raw setsockopt/close passed as fn_ptr update that model; closing a number resets its options (reuse by a new socket)",
+        "EventLoops::del_event is stubbed to Ok (interest bookkeeping is decided under C21)",
+    ],
+    "groups": [
+        {
+            "mounts": [("c19_sockopt.rs", "syscall/unix/mod.rs")],
+            "harnesses": ["c19_history_2", "c19_history_3"],
+            "thorough_harnesses": ["c19_history_4"],
+            "timeout": 600, "timeout_thorough": 3000,
+        },
+    ],
+}
+
+_SEL_ASSUME = [
+    "mio is replaced by the model crate: per Poll a table fd -> (token, interest) with epoll's EEXIST/ENOENT contract; "
+    "poll() delivers one event per ready fd carrying the registered token (level-style delivery, readiness marks set by the harness)",
+    "dashmap/once_cell model crates back the process-wide record sets",
+]
+PROPS["C20"] = {
+    "functions": ["net::selector::mio_adapter::Poller::{do_register,do_reregister,do_select}", "<mio::event::Event as selector::Event>::get_token",
+                  "Selector::{add_read_event,add_write_event,select,register}"],
+    "bounds": "loop-free integer code: every u64 token / coroutine id, every non-negative descriptor number; 2 coroutine ids, 2 descriptors.",
+    "outside": "EventLoop::resume -> Scheduler::try_resume (the lookup by the decoded token is a set removal keyed by the same value); "
+               "readiness timing on a real epoll; io_uring/IOCP tokens.",
+    "assumptions": _SEL_ASSUME,
+    "groups": [
+        {
+            "mounts": [("c20_selector.rs", "net/selector/mod.rs")],
+            "harnesses": ["c20_token_roundtrip_read", "c20_token_roundtrip_write", "c20_readiness_wakes_only_the_waiter"],
+            "timeout": 300,
+        },
+    ],
+}
+PROPS["C21"] = {
+    "functions": ["Selector::{add_read_event,add_write_event,del_event,del_read_event,del_write_event,select,register,reregister,deregister}",
+                  "mio_adapter::Poller::{do_register,do_reregister,do_deregister}"],
+    "bounds": "every history of 3 (quick) / 4 (thorough) operations from {wait read, wait write, drop both, drop read, drop write, close+reuse} "
+              "over 2 descriptor numbers with symbolic tokens on one poller; a re-wait after a consumed event; two pollers sharing the record sets.",
+    "outside": "the real epoll (edge-trigger re-arm), OS failures other than EEXIST/ENOENT, shutdown() (same del_* calls).",
+    "assumptions": _SEL_ASSUME,
+    "groups": [
+        {
+            "mounts": [("c20_selector.rs", "net/selector/mod.rs")],
+            "harnesses": ["c21_interest_history_3", "c21_rewait_after_event", "c21_two_event_loops"],
+            "thorough_harnesses": ["c21_interest_history_4"],
+            "timeout": 600, "timeout_thorough": 3000,
+        },
+    ],
+}
+
+PROPS["C25"] = {
+    "functions": ["coroutine::local::CoroutineLocal::{put,get,get_mut,remove}", "drop of CoroutineLocal"],
+    "bounds": "every history of 3 (quick) / 4 (thorough) operations from {put, get, get_mut+write, remove} over 2 keys x 2 coroutine-locals "
+              "with symbolic u8 payloads; value type with a counting destructor; release-on-drop after every 2-operation history.",
+    "outside": "more keys/locals, concurrent access, keys that differ only beyond the first byte.",
+    "assumptions": ["dashmap is replaced by the model crate (linear map, capacity 4)"],
+    "groups": [
+        {
+            "mounts": [("c25_local.rs", "coroutine/local.rs")],
+            "harnesses": ["c25_map_history_3", "c25_release_on_drop"],
+            "thorough_harnesses": ["c25_map_history_4"],
+            "timeout": 600, "timeout_thorough": 3000,
+        },
+    ],
+}
+PROPS["C26"] = {
+    "functions": ["common::beans::BeanFactory::{get_instance,get_or_default,init_bean,get_bean}"],
+    "bounds": "2 threads, each one first lookup of the same name; thread B's whole lookup is placed at one symbolic scheduling point "
+              "inside thread A's lookup (every dashmap operation and every atomic operation is a scheduling point) or after it; SeqCst.",
+    "outside": "non-nested interleavings (B pre-empted in turn), 3+ threads, weak-memory effects, get_mut_or_default.",
+    "assumptions": ["E5: std atomics in beans.rs replaced by yielding Cell-backed atomics", "dashmap model; one pre-emption (DESIGN 2.7)"],
+    "groups": [
+        {
+            "mounts": [("c26_beans.rs", "common/beans.rs")],
+            "atomics": ["common/beans.rs"],
+            "harnesses": ["c26_two_first_lookups", "c26_sequential_lookups"],
+            "timeout": 600,
+        },
+    ],
+}
+PROPS["C06"] = {
+    "functions": ["work_steal::LocalQueue::{tick,pop,push}", "work_steal::WorkStealQueue::{push,pop}"],
+    "bounds": "tick: every u32 start value, 61 consecutive calls (unwind 63). shared-first step: every tick value whose successor is a multiple "
+              "of 61 (and the wrap), 1 local queue of capacity 2.",
+    "outside": "see DESIGN",
+    "assumptions": ["st3 / crossbeam-deque / rand model crates"],
+    "groups": [
+        {
+            "mounts": [("c06_ws.rs", "common/work_steal.rs")],
+            "harnesses": ["c06_ws_tick_window", "c06_ws_shared_first_on_tick"],
+            "timeout": 600,
+        },
+    ],
+}
+
+PROPS["C03"] = {
+    "functions": ["work_steal::WorkStealQueue::{push,pop,len}", "ordered_work_steal::OrderedWorkStealQueue::{push_with_priority,pop,len}"],
+    "bounds": "2 threads x 1 operation each (all pairs of push/pop) on a shared queue pre-filled with 0..=2 items, thread B's whole "
+              "operation placed at one symbolic scheduling point inside thread A's (every Injector/SkipMap operation and every atomic "
+              "operation is one) or after it; priorities in {0,1}; SeqCst.",
+    "outside": "3 threads, non-nested interleavings, weak memory, internals of st3/crossbeam (trusted linearizable), local-queue steals (sequential "
+               "parts are decided under C04/C05/C06).",
+    "assumptions": ["E5 yielding atomics in the two queue files", "crossbeam-deque / crossbeam-skiplist model crates", "one pre-emption (DESIGN 2.7)"],
+    "groups": [
+        {"mounts": [("c03_ws_conc.rs", "common/work_steal.rs")], "atomics": ["common/work_steal.rs"],
+         "harnesses": ["c03_ws_global_race"], "timeout": 900},
+        {"mounts": [("c03_ows_conc.rs", "common/ordered_work_steal.rs")], "atomics": ["common/ordered_work_steal.rs"],
+         "harnesses": ["c03_ows_global_race"], "timeout": 900},
+    ],
+}
+
+_CO_ASSUME = [
+    "corosensei is replaced by the model crate: no stack switch; script mode = one scripted step per resume, performed through the repository's own functions (DESIGN 2.5)",
+    "E1 (thread_local -> static), E2 (thread::current), E4 (catch_unwind runs the closure; panics are failures, so 'panic becomes an error' clauses are outside the claim), E7 (tail of Suspender::cancel)",
+    "common::now stubbed with a virtual clock; alloc::fmt::format stubbed (message text is not part of any claim)",
+]
+PROPS["C07"] = {
+    "functions": ["coroutine::state::{ready,running,suspend,syscall,cancel,complete,error,change_state}",
+                  "coroutine::listener broadcast! (on_state_changed + per-state callbacks)", "Coroutine::new"],
+    "bounds": "one transition request from an arbitrary current state (7 variants, symbolic payloads, 4 syscall names x 4 syscall states) with symbolic "
+              "arguments and symbolic clock, 1 listener; one solver query per transition function.",
+    "outside": "panicking listeners (E4), 2+ listeners, the real body wrapper, whole resume sequences (scripted-body harnesses).",
+    "assumptions": _CO_ASSUME,
+    "groups": [
+        {
+            "mounts": [("c07_state.rs", "coroutine/state.rs")],
+            "harnesses": ["c07_step_ready", "c07_step_running", "c07_step_suspend", "c07_step_syscall", "c07_step_cancel",
+                          "c07_step_complete", "c07_step_error"],
+            "timeout": 600,
+        },
+    ],
+}
+
+PROPS["C09"] = {
+    "functions": ["coroutine::suspender::Suspender::{suspend_with,until_with,cancel,timestamp,is_cancel}",
+                  "Coroutine::{resume_with,raw_resume,syscall,running,suspend,cancel,complete}", "state::change_state + listener broadcast"],
+    "bounds": "3 scripted coroutines resumed once each on one thread; each first step symbolic from {plain suspend, until(ts), cancel, until(ts) in "
+              "Syscall state, cancel in Syscall state} with symbolic 64-bit timestamps.",
+    "outside": "more coroutines / deeper histories, real stack switching, the signal-driven cancel racing with a switch, EventLoop::wait_just itself "
+               "(its yielding part is transcribed as co.syscall(Suspend(ts)) + suspender.until(ts)).",
+    "assumptions": _CO_ASSUME + ["E8: signal-handler installation skipped"],
+    "groups": [
+        {
+            "mounts": [("c09_requests.rs", "coroutine/suspender.rs")],
+            "harnesses": ["c09_running_state_requests", "c09_syscall_state_requests"],
+            "timeout": 900,
+        },
+    ],
+}
+PROPS["C07"]["groups"].append({
+    "mounts": [("c09_requests.rs", "coroutine/suspender.rs")],
+    "harnesses": ["c07_scripted_body_path"],
+    "timeout": 900,
+})
